@@ -17,7 +17,7 @@
 (***************************************************************************)
 EXTENDS McaCore, Json
 
-CONSTANTS Nets,       \* subset of {"chain2", "branch", "rev", "sgn", "cycle", "ia", "iac", "pl"}
+CONSTANTS Nets,       \* subset of {"chain2", "branch", "rev", "sgn", "cycle", "ia", "iac", "ipar", "pl"}
           Grid,       \* "quick" | "mid" | "full"
           EmitOn
 VARIABLES nm, env, ph
@@ -86,6 +86,14 @@ Net(n) ==
              ss |-> ("x1" :> Div(Sub(kin, Div(Mul(Sym("g"), kin), k2)), k1)) @@ ("x2" :> Div(kin, k2)),
              cons |-> <<>>, init |-> <<>>,
              vals |-> ("g" :> {R(0 - 1, 2), R(0 - 1, 4)}) @@ ("x2" :> {RInt(0 - 1), RInt(3)})]
+      [] n = "ipar" ->   \* the chain with a RULE-DEFINED PARAMETER k1 = 2 * kbase (pinit).  The rates below are written with
+                         \* the rule substituted (what the model computes with); the harness declares k1 by the rule
+                         \* and lets v1 read k1.  The scannable parameters end with kbase, so a sequential scan displaces
+                         \* the rule's source AFTER other parameters; afterwards k1 must still be that rule.
+            [vars |-> <<"x1", "x2">>, pars |-> <<"kin", "k2", "kbase">>,
+             rxns |-> <<Rx("v0", kin, In1), Rx("v1", Mul(Mul(Num(2), Sym("kbase")), x1), X1X2), Rx("v2", Mul(k2, x2), Out2)>>,
+             ss |-> ("x1" :> Div(kin, Mul(Num(2), Sym("kbase")))) @@ ("x2" :> Div(kin, k2)),
+             cons |-> <<>>, init |-> <<>>, vals |-> <<>>]
       [] n = "pl" ->     \* power laws of several orders (no closed-form steady state: elasticities only)
             [vars |-> <<"x1", "x2">>, pars |-> <<"kin", "k1", "k2", "k3">>,
              rxns |-> <<Rx("v0", kin, In1), Rx("v1", Mul(k1, Pow(x1, 2)), X1X2), Rx("v2", Mul(Mul(k2, x1), x2), Out2),
@@ -113,6 +121,8 @@ Next == /\ ph = "build"
 
 Done == ph = "done"
 N == Net(nm)
+\* parameters declared by a rule of other parameters (rendered by the harness; the rule is part of the model's content)
+PInit == IF nm = "ipar" THEN ("k1" :> Mul(Num(2), Sym("kbase"))) ELSE <<>>
 VarSet == Range(N.vars)
 ParSet == Range(N.pars)
 RxnSet == Range(RxnNames(N))
@@ -203,7 +213,7 @@ Table(rows, cols, F(_, _)) == [a \in rows |-> [b \in cols |-> F(a, b)]]
 
 Emit == (EmitOn /\ Done) =>
     PrintT("@J@" \o ToJson(
-        [net |-> nm, desc |-> N, env |-> env,
+        [net |-> nm, desc |-> N, env |-> env, pinit |-> PInit,
          flux |-> [r \in RxnSet |-> Flux(N, r, env)],
          evu |-> Table(VarSet, RxnSet, LAMBDA s, r : Unscaled(N, r, s, env)),
          evs |-> Table(VarSet, RxnSet, LAMBDA s, r : Scaled(N, r, s, env)),
